@@ -47,6 +47,9 @@ const pubCtxPrefix = "bifrost/pubsub/pubmessage 2024-06-05T02:38:47.55258Z chann
 
 // concretisation of the abstract contexts / bodies per wrapper
 func ctxOf(wrapper, atom string) string {
+	if atom == "c0" {
+		return "" // the empty context (signing side only)
+	}
 	switch wrapper {
 	case "session":
 		if atom == "c1" {
@@ -103,6 +106,8 @@ func mutateSig(sd []byte, class string, r int) []byte {
 		return nil
 	case "trunc":
 		return append([]byte{}, sd[:len(sd)-1-(r%8)]...)
+	case "extended":
+		return append(append([]byte{}, sd...), make([]byte, 1+r%8)...)
 	}
 	return sd
 }
